@@ -116,6 +116,26 @@ class Gate(io.RawIOBase):
     def fileno(self):
         return self.fd
 
+    def seekable(self):
+        return True
+
+    def seek(self, off, whence=0):
+        return _real_fd["lseek"](self.fd, off, whence)
+
+    def tell(self):
+        return _real_fd["lseek"](self.fd, 0, 1)
+
+    def truncate(self, size=None):
+        if self.owner_dead():
+            return size if size is not None else self.tell()
+        if size is None:
+            size = self.tell()
+        SIM.event("truncate", self.rel, size)
+        if self.owner_dead():
+            return size
+        os.ftruncate(self.fd, size)
+        return size
+
     def _fire(self, plan):
         plan["fired"] = True
         SIM.fault(plan["kind"])
@@ -201,30 +221,10 @@ class GateRW(Gate):
     def readable(self):
         return True
 
-    def seekable(self):
-        return True
-
     def readinto(self, b):
         data = _real_fd["read"](self.fd, len(b))
         b[:len(data)] = data
         return len(data)
-
-    def seek(self, off, whence=0):
-        return _real_fd["lseek"](self.fd, off, whence)
-
-    def tell(self):
-        return _real_fd["lseek"](self.fd, 0, 1)
-
-    def truncate(self, size=None):
-        if self.owner_dead():
-            return size if size is not None else self.tell()
-        if size is None:
-            size = self.tell()
-        SIM.event("truncate", self.rel, size)
-        if self.owner_dead():
-            return size
-        os.ftruncate(self.fd, size)
-        return size
 
 
 class RFile:
@@ -312,7 +312,10 @@ def sim_open(file, mode="r", buffering=-1, encoding=None, errors=None, newline=N
                     flags |= os.O_CREAT | os.O_APPEND
                 elif "x" in mode:
                     flags |= os.O_CREAT | os.O_EXCL
-                raw = GateRW(p, _real_os_open(p, flags, 0o666))
+                rw_fd = _real_os_open(p, flags, 0o666)
+                if "a" in mode:
+                    _real_fd["lseek"](rw_fd, 0, os.SEEK_END)
+                raw = GateRW(p, rw_fd)
             if buffering == 0 and "b" in mode:
                 return raw
             buf = io.BufferedRandom(raw)
@@ -331,6 +334,8 @@ def sim_open(file, mode="r", buffering=-1, encoding=None, errors=None, newline=N
         if "x" in mode:
             flags |= os.O_EXCL
         fd = _real_os_open(p, flags, 0o666)
+        if "a" in mode:
+            _real_fd["lseek"](fd, 0, os.SEEK_END)
         return _wrap_gate(p, fd, mode, buffering, encoding, errors, newline)
     # read mode
     SIM.event("open", rel(p))
